@@ -1,1 +1,192 @@
-fn main() {}
+//! Conformance driver for the actix-service combinators (C11, C12).
+//!
+//! `vservice run --schedules F --trace T [--sample-mod M --sample-rem R] [--max-flagged N]`
+//!
+//! A schedule (one JSON object per line, printed by TLC from spec/service/Combinators.tla) is a vector
+//! `{t: term with leaf scripts, req, cfg, log: expected rounds}`.  The driver builds the REAL combinators for the
+//! term (build.rs), drives them with a manual executor - new_service -> poll (init) -> poll_ready* -> call ->
+//! poll* - handing out a fresh waker per poll, records every round `{ph,w,res,acc}` as observed, and compares
+//! it with the expected round: same phase / waker id / root result and the same MULTISET of leaf accesses.
+//! Recorded runs (all flagged ones, plus every run with index % M == R) go to the trace file for TLC
+//! (CombinatorsTrace.tla), which is what decides about violations.  Panics of the code under test are data.
+
+mod build;
+mod model;
+
+use std::{
+    task::{Context, Poll},
+};
+
+use actix_service::{Service, ServiceFactory};
+use vcore::{arg, catch, json, quiet_panics, read_ndjson, Trace, Value};
+
+use build::{build_fac, build_svc, is_factory, Dyn};
+use model::*;
+
+const MAX_ROUNDS: usize = 40;
+
+fn res(k: &str, v: &str) -> Value {
+    json!({"k": k, "v": v})
+}
+
+fn round(ph: &str, w: i64, r: Value) -> Value {
+    json!({"ev": "round", "ph": ph, "w": w, "res": r, "acc": take_acc()})
+}
+
+/// Executes the protocol on the real code; returns the observed rounds.
+fn execute(t: &Value, req: &str, cfg: &str) -> Vec<Value> {
+    reset_recorder();
+    let mut log: Vec<Value> = vec![];
+    macro_rules! guard {
+        ($ph:expr, $w:expr, $e:expr) => {
+            match catch(|| $e) {
+                Ok(v) => v,
+                Err(msg) => {
+                    log.push(round($ph, $w, res("panic", &msg)));
+                    return log;
+                }
+            }
+        };
+    }
+
+    let svc: Dyn = if is_factory(t) {
+        let fac = guard!("new", 0, build_fac(t));
+        let mut fut = guard!("new", 0, fac.new_service(Cfg(cfg.to_string())));
+        log.push(round("new", 0, res("ok", "")));
+        loop {
+            if log.len() >= MAX_ROUNDS {
+                return log;
+            }
+            let (w, waker) = fresh_waker();
+            let mut cx = Context::from_waker(&waker);
+            let p = guard!("init", w, fut.as_mut().poll(&mut cx));
+            match p {
+                Poll::Pending => log.push(round("init", w, res("pending", ""))),
+                Poll::Ready(Ok(s)) => {
+                    log.push(round("init", w, res("ok", "")));
+                    break s;
+                }
+                Poll::Ready(Err(e)) => {
+                    log.push(round("init", w, res("err", &e.0)));
+                    return log;
+                }
+            }
+        }
+    } else {
+        guard!("ready", 0, build_svc(t))
+    };
+
+    loop {
+        if log.len() >= MAX_ROUNDS {
+            return log;
+        }
+        let (w, waker) = fresh_waker();
+        let mut cx = Context::from_waker(&waker);
+        match guard!("ready", w, svc.poll_ready(&mut cx)) {
+            Poll::Pending => log.push(round("ready", w, res("pending", ""))),
+            Poll::Ready(Ok(())) => {
+                log.push(round("ready", w, res("ok", "")));
+                break;
+            }
+            Poll::Ready(Err(e)) => {
+                log.push(round("ready", w, res("err", &e.0)));
+                break;
+            }
+        }
+    }
+
+    let mut fut = guard!("call", 0, svc.call(Val(req.to_string())));
+    log.push(round("call", 0, res("ok", "")));
+    loop {
+        if log.len() >= MAX_ROUNDS {
+            return log;
+        }
+        let (w, waker) = fresh_waker();
+        let mut cx = Context::from_waker(&waker);
+        match guard!("fut", w, fut.as_mut().poll(&mut cx)) {
+            Poll::Pending => log.push(round("fut", w, res("pending", ""))),
+            Poll::Ready(Ok(v)) => {
+                log.push(round("fut", w, res("ok", &v.0)));
+                return log;
+            }
+            Poll::Ready(Err(e)) => {
+                log.push(round("fut", w, res("err", &e.0)));
+                return log;
+            }
+        }
+    }
+}
+
+fn sorted_acc(r: &Value) -> Vec<String> {
+    let mut v: Vec<String> = r["acc"]
+        .as_array()
+        .map(|a| a.iter().map(|e| e.to_string()).collect())
+        .unwrap_or_default();
+    v.sort();
+    v
+}
+
+/// first round in which observation and expectation differ (multiset comparison of the accesses)
+fn first_diff(exp: &[Value], obs: &[Value]) -> Option<usize> {
+    for i in 0..exp.len().max(obs.len()) {
+        match (exp.get(i), obs.get(i)) {
+            (Some(e), Some(o)) => {
+                if e["ph"] != o["ph"] || e["w"] != o["w"] || e["res"] != o["res"] || sorted_acc(e) != sorted_acc(o) {
+                    return Some(i);
+                }
+            }
+            _ => return Some(i),
+        }
+    }
+    None
+}
+
+fn main() {
+    quiet_panics();
+    let mode = std::env::args().nth(1).expect("mode");
+    assert_eq!(mode, "run", "unknown mode");
+    let schedules = read_ndjson(&arg("--schedules").expect("--schedules"));
+    let mut trace = Trace::create(&arg("--trace").expect("--trace"));
+    let smod: usize = arg("--sample-mod").map(|s| s.parse().unwrap()).unwrap_or(1);
+    let srem: usize = arg("--sample-rem").map(|s| s.parse().unwrap()).unwrap_or(0);
+    let max_flagged: usize = arg("--max-flagged").map(|s| s.parse().unwrap()).unwrap_or(400);
+
+    let mut mismatches: Vec<Value> = vec![];
+    let mut nmis = 0usize;
+    let mut steps = 0usize;
+    let mut traced: Vec<usize> = vec![];
+    for (run, sch) in schedules.iter().enumerate() {
+        let t = &sch["t"];
+        let req = sch["req"].as_str().unwrap_or("");
+        let cfg = sch["cfg"].as_str().unwrap_or("");
+        let obs = execute(t, req, cfg);
+        steps += obs.len();
+        let empty = vec![];
+        let exp = sch["log"].as_array().unwrap_or(&empty);
+        let diff = if sch.get("log").is_some() {
+            first_diff(exp, &obs)
+        } else {
+            None
+        };
+        if let Some(k) = diff {
+            nmis += 1;
+            if mismatches.len() < 20 {
+                mismatches.push(json!({"run": run, "step": k, "expected": exp.get(k), "observed": obs.get(k)}));
+            }
+        }
+        if (diff.is_some() && nmis <= max_flagged) || run % smod == srem {
+            trace.emit(&json!({"ev": "reset", "run": run, "t": t, "req": req, "cfg": cfg,
+                               "flagged": diff.is_some()}));
+            for r in &obs {
+                trace.emit(r);
+            }
+            traced.push(run);
+        }
+    }
+    trace.finish();
+    println!(
+        "{}",
+        json!({"runs": schedules.len(), "steps": steps, "mismatches": nmis, "traced": traced.len(),
+               "first_mismatches": mismatches})
+    );
+}
